@@ -407,7 +407,7 @@ def shard_docs(task):
 PUMP_OPEN = ["", "${", "<%", "<%a", "<%!", "<%a b", "<%doc>", "<%text>", "% if ", "## ", "${a|", '<%a b="', "${'", '${"',
              "<%\n'", "</%", "</%a", "x\n%%", "<%a:b ", '${"""', "<%a b='c' "]
 PUMP_TOK = [" ", "\t", "\n", "=", ",", '"', "'", "(", ")", "[", "]", "{", "}", "\\", "a", "#", "%", "<", ">", "|", "$", "/",
-            "\r\n", "\\\n", " = ", '""', "''", "\\'", "a=", "${", "<%", "%>"]
+            "\r\n", "\\\n", " = ", '""', "''", "\\'", "a=", "${", "<%", "%>", " ,", ", ", " , ", "\t=", "=\n", ",\n", " a", "a ", '" "', "' '"]
 PUMP_CLOSE = ["", ">", "}", "%>", "\n", '"', "x", "/>", "!"]
 BUDGET_S = 2.0
 SIZES = (4, 8, 16, 32, 64)
